@@ -370,7 +370,54 @@ def rule_top_two(ctx):
                 samples=['%s is the largest, %s the second largest' % good[0]] if good else [])
 
 
+def rule_per_particle_terms(ctx):
+    """R13.10: the critical distance below which a pair is handed to the collision search under MERCURIUS is the maximum of
+    several criteria computed for particle i. Every term accumulated into the returned value must depend on particle i
+    (through particles[i], a pointer to it, or a local computed from it): a term built from another particle only - the
+    physical radius of the star instead of the body's own - is the same constant for all particles, so overlapping bodies
+    larger than their other criteria are never flagged and never collision-searched."""
+    tu = cfront.load_tu('integrator_mercurius.c')
+    fn = tu.func('reb_integrator_mercurius_calculate_dcrit_for_particle')
+    ps = cfront.params(fn)
+    idx = [p_['name'] for p_ in ps if 'int' in qtype(p_)]
+    anchor(len(idx) == 1, 'index parameter of reb_integrator_mercurius_calculate_dcrit_for_particle')
+    ivar = idx[0]
+    ret = None
+    for x in walk(cfront.body(fn)):
+        if x.get('kind') == 'ReturnStmt' and x.get('inner'):
+            r0 = strip(x['inner'][0], casts=True)
+            if r0.get('kind') == 'DeclRefExpr':
+                ret = r0['referencedDecl']['name']
+    anchor(ret is not None, 'the function returns an accumulated local')
+    tainted = set()
+
+    def dep(e):
+        for y in walk(e):
+            if y.get('kind') == 'DeclRefExpr':
+                nm = y['referencedDecl']['name']
+                if nm == ivar or (nm in tainted and nm != ret):
+                    return True
+        return False
+    n = 0
+    for st in walk(cfront.body(fn)):
+        if st.get('kind') == 'VarDecl' and 'init' in st and st.get('name') != ret:
+            init = [c for c in st.get('inner', []) if c.get('kind') not in ('FullComment',)]
+            if init and dep(init[-1]):
+                tainted.add(st['name'])
+        elif is_assign(st) and render(st['inner'][0]) == ret:
+            n += 1
+            rhs = st['inner'][1]
+            if not dep(rhs):
+                lits = all(y.get('kind') != 'DeclRefExpr' or y['referencedDecl']['name'] == ret for y in walk(rhs))
+                if lits:
+                    continue        # plain initialisation with a constant
+                ctx.report('R13.10', 'dcrit:term:%s' % line_of(st), 'src/integrator_mercurius.c:%s %s' % (line_of(st), fn['name']),
+                           'the criterion accumulated here (%s) does not depend on particle %s: it is the same value for every particle (a quantity of another body - e.g. the star\'s radius in place of the body\'s own)' % (render(rhs)[:90], ivar))
+    ctx.covered('R13.10', 'criteria accumulated into the MERCURIUS critical distance of particle i depend on particle i', n, floor=4)
+
+
 def run(ctx):
+    rule_per_particle_terms(ctx)
     rule_top_two(ctx)
     from . import serial
     serial.rule_tree_predicate(ctx, 'R13.9')   # every site that decides "this simulation uses the tree" names both tree searches: a restored linetree simulation gets its tree back
